@@ -191,7 +191,7 @@ def any_label(extra_models=()):
 
 
 NUM_FORMS = (
-    "int", "int.", ".frac", "dec", "neg", "plus", "exp", "Exp", "exp.", "tiny", "big",
+    "int", "int.", ".frac", "dec", "neg", "plus", "exp", "Exp", "exp.", "tiny", "big", "long", "edge",
 )
 
 
@@ -222,6 +222,11 @@ def num_literal(draw, nonneg=False, forms=NUM_FORMS):
         s = f"{i % 10}.{j % 100}e+{e % 5}"
     elif f == "tiny":
         s = "0." + "0" * (e % 9) + str(1 + j % 99)
+    elif f == "long":
+        s = f"{i % 10}.{j:05d}{(j * 7919) % 100000:05d}{(i * 3701) % 1000000:06d}" + ("" if e % 3 else f"e-{e}")  # 17 significant digits
+    elif f == "edge":
+        s = ("-0", "-0.0", "1e300", "2.5e-300", "0012.50", "1E+2", "123456789012345678", "0.30000000000000004", "4.9e-324", "00", "9.999999999999999e22",
+             "0.1e1", "1.0000001", "0.99999995")[(i + j) % 14]
     else:
         s = f"{i}{j}"
     if nonneg and s.startswith("-"):
